@@ -68,8 +68,77 @@ def register(reg):
                           ("linear-interpolation-y", PRODUCED[6]), ("linear-interpolation-z", PRODUCED[7]), ("linear-interpolation-x", PRODUCED[8]),
                           ("stamped-with-the-instant-to-the-millisecond", PRODUCED[9])]))
 
+    # ---------------------------------------------------------------- spatial resampling (region: the sampling loop)
+    # Inputs: the track, its cumulated 2-D length list S (non-decreasing, S[0] = sini), the step ds > 0 and the number of
+    # samples N with sini + N ds <= S[last] (N = floor((sfin - sini) / ds) in the code before the region).
+    AB = "(%s * ds + sini)"                          # abscissa of sample number %s
+    W0 = "fdiv(S[%(r)s] - %(s)s, S[%(r)s] - S[%(r)s - 1])"
+    W1 = "fdiv(%(s)s - S[%(r)s - 1], S[%(r)s] - S[%(r)s - 1])"
 
-FUNCTIONS = [Q + "__resampleTemporal"]
+    def comb(j, field, F):
+        d = dict(r="RID_[%s]" % j, s=AB % j)
+        return "interp_points[%s].position.%s == %s * %s(track, RID_[%s] - 1) + %s * %s(track, RID_[%s])" % (
+            j, field, W0 % d, F, j, W1 % d, F, j)
+    TSV = "(%s * abstime(tstamp(track, RID_[%%(j)s] - 1)) + %s * abstime(tstamp(track, RID_[%%(j)s])))" % (W0, W1)
+    tsv = lambda j: TSV % dict(r="RID_[%s]" % j, s=AB % j, j=j)
+    SP = [
+        "len(RID_) == len(interp_points)",
+        "all(isnew(interp_points[j]) and isnew(interp_points[j].position) and isnew(interp_points[j].timestamp) for j in range(0, len(interp_points)))",
+        # for an ARBITRARY produced sample J0 (ghost input): the segment it lies on, its weights, its coordinates, its time
+        "implies(1 <= J0 and J0 < len(RID_), 1 <= RID_[J0] and RID_[J0] < %s and S[RID_[J0] - 1] < %s and %s <= S[RID_[J0]])" % (n, AB % "J0", AB % "J0"),
+        "implies(1 <= J0 and J0 < len(RID_), 0 <= %s and %s <= 1 and %s + %s == 1)" % (
+            W1 % dict(r="RID_[J0]", s=AB % "J0"), W1 % dict(r="RID_[J0]", s=AB % "J0"),
+            W0 % dict(r="RID_[J0]", s=AB % "J0"), W1 % dict(r="RID_[J0]", s=AB % "J0")),
+        "implies(1 <= J0 and J0 < len(RID_), not isnan(interp_points[J0].position.E) and %s)" % comb("J0", "E", "X"),
+        "implies(1 <= J0 and J0 < len(RID_), not isnan(interp_points[J0].position.N) and %s)" % comb("J0", "N", "Y"),
+        "implies(1 <= J0 and J0 < len(RID_), not isnan(interp_points[J0].position.U) and %s)" % comb("J0", "U", "Z"),
+        "implies(1 <= J0 and J0 < len(RID_), wf(interp_points[J0].timestamp) and abstime(interp_points[J0].timestamp) <= %s and "
+        "%s < abstime(interp_points[J0].timestamp) + 0.001)" % (tsv("J0"), tsv("J0")),
+        # the first sample is (a copy of) the first fix
+        "len(interp_points) >= 1 and same(interp_points[0].position.E, X(track, 0)) and same(interp_points[0].position.N, Y(track, 0)) and "
+        "same(interp_points[0].position.U, Z(track, 0)) and samefields(interp_points[0].timestamp, tstamp(track, 0))"]
+    SORTED_S = "all(implies(a <= b, S[a] <= S[b]) for a in range(0, len(S)) for b in range(0, len(S)))"
+    LAST = "len(RID_) - 1"
+    reg.add(Spec("tracklib.core.obs:Obs.copy", dict(self="Obs"), "Obs", trusted=True, fresh=["Obs", "ENUCoords", "ObsTime"],
+                 ensures=["isnew(result) and isnew(result.position) and isnew(result.timestamp)",
+                          "same(result.position.E, self.position.E) and same(result.position.N, self.position.N) and same(result.position.U, self.position.U)",
+                          "samefields(result.timestamp, self.timestamp)"]))
+    reg.add(Spec(Q + "__resampleSpatial", dict(track="Track", S="list[real]", ds="float", N="int", sini="real"), "none", ghost=dict(J0="int"),
+                 region=("interp_points = [track.getFirstObs().copy()]", "track.setObsList(interp_points)"),
+                 requires=["twf(track)", n + " >= 2", "len(S) == " + n, "sini == S[0]", SORTED_S, "not isnan(ds) and ds > 0", "N >= 0",
+                           "N * ds + sini <= S[len(S) - 1]",
+                           "all(not isnan(X(track, r)) and not isnan(Y(track, r)) and not isnan(Z(track, r)) for r in range(0, %s))" % n,
+                           "all(wf(tstamp(track, r)) and abstime(tstamp(track, r)) >= 0 for r in range(0, %s))" % n],
+                 fresh=["Obs", "ENUCoords", "ObsTime"],
+                 locals=dict(interp_points="list[Obs]", RID_="list[int]"),
+                 at={"running_id = 0": ["ghost RID_ = [0]"],
+                     "s = k * ds + sini": ["use mul_nonneg(k, ds)", "use mul_mono(k, N, ds)", "use distrib(k, 1, ds)"],
+                     "wfwd = (s - sbwd) / (sfwd - sbwd)": [
+                         "use div_bounds(0, 1, wfwd, sfwd - sbwd)", "use div_bounds(0, 1, wbwd, sfwd - sbwd)",
+                         "use distrib(wbwd, 0 - wfwd, sfwd - sbwd)", "use distrib(wbwd, wfwd, sfwd - sbwd)",
+                         "use mul_cancel(sfwd - sbwd, wbwd + wfwd, 1)",
+                         ("weights", "0 <= wfwd and wfwd <= 1 and 0 <= wbwd and wbwd <= 1 and wbwd + wfwd == 1")],
+                     "interp_points.append(pi)": ["ghost RID_ = RID_ + [running_id]",
+                                                  ("appended-entry", "RID_[%s] == running_id and S[running_id] == sfwd and S[running_id - 1] == sbwd and "
+                                                   "%s == s and interp_points[%s].position.E == X and interp_points[%s].position.N == Y and "
+                                                   "interp_points[%s].position.U == Z" % (LAST, AB % ("(%s)" % LAST), LAST, LAST, LAST)),
+                                                  ("appended-x", comb("(%s)" % LAST, "E", "X")), ("appended-y", comb("(%s)" % LAST, "N", "Y")),
+                                                  ("appended-z", comb("(%s)" % LAST, "U", "Z"))]},
+                 loops={"2": LoopSpec(inv=SP + [
+                            "len(interp_points) == k",
+                            "0 <= running_id and running_id < " + n,
+                            "running_id == 0 or S[running_id - 1] < %s" % (AB % "k"),
+                            "unchanged_old_class('Obs') and unchanged_old_class('ENUCoords') and unchanged_old_class('ObsTime')"]),
+                        "2.1": LoopSpec(inv=["0 <= running_id and running_id < " + n, "running_id == 0 or S[running_id - 1] < s"],
+                                        decreases=n + " - running_id")},
+                 ensures=[("first-fix-then-one-sample-per-step", "len(interp_points) == N + 1 and " + SP[8]),
+                          ("each-sample-on-a-segment-at-its-abscissa", SP[2]),
+                          ("weights-between-0-and-1", SP[3]),
+                          ("on-the-polyline-x", SP[4]), ("on-the-polyline-y", SP[5]), ("interpolated-height", SP[6]),
+                          ("interpolated-time-to-the-millisecond", SP[7])]))
+
+
+FUNCTIONS = [Q + "__resampleTemporal", Q + "__resampleSpatial"]
 USES_LIB = True
 ASSUMPTIONS = ["__resampleTemporal: the loop is under contract (region); building T, prepareTimeSampling and setObsList are bounded only",
                "timestamps strictly increasing, requested instants non-decreasing and >= 0 (epoch seconds)",
